@@ -110,6 +110,10 @@ def sort_over_sort_case(rng):
         flipped = [[list(t[0]), not t[1]] for t in old_terms]
         rng.shuffle(flipped)
         terms = ([[["ref", rng.choice(cols)], rng.random() < 0.5]] if rng.random() < 0.3 else []) + flipped[: rng.randint(1, len(flipped))]
+    others = [c for c in cols if c not in old_cols]
+    if others and rng.random() < 0.3:
+        # every term of the existing sort occurs in the new one, but not as its leading terms
+        terms = [[["ref", rng.choice(others)], rng.random() < 0.5]] + [[list(t[0]), t[1]] for t in old_terms]
     prog, pcols_, eng = state
     return {"leaves": g.leaves, "prog": prog, "cols": sorted(pcols_), "engine": eng,
             "final": {"kind": "sort", "node": ["sort", ["leaf", "__T__"], terms, None]}, "directed": "sort_over_sort"}
